@@ -18,6 +18,7 @@ mod options;
 mod progress;
 
 use std::io::ErrorKind;
+use std::os::unix::ffi::OsStrExt;
 use std::os::unix::fs::MetadataExt;
 use std::path::{Component, Path, PathBuf};
 use std::{result, thread};
@@ -227,9 +228,13 @@ fn main() -> Result<()> {
             .ok_or(XcpError::InvalidSource("Failed to find source directory name."))?;
 
         // (A source ending in `..`, `.` or the root has no name of
-        // its own: its contents go into the destination itself.)
+        // its own: its contents go into the destination itself.
+        // `components()` drops a trailing `.`.)
+        let spelled = source.as_os_str().as_bytes();
+        let spelled = &spelled[..spelled.iter().rposition(|b| *b != b'/').map_or(0, |p| p + 1)];
+        let contents_only = spelled == b"." || spelled.ends_with(b"/.");
         let target_base = match sourcedir {
-            Component::Normal(name) if is_dir(&dest)? && !opts.no_target_directory => dest.join(name),
+            Component::Normal(name) if !contents_only && is_dir(&dest)? && !opts.no_target_directory => dest.join(name),
             _ => dest.to_path_buf(),
         };
 
